@@ -222,4 +222,9 @@ theorem C08_monitor_submissions_never_wait :
 theorem C08_capacities : Facts.capCbch = 64 ∧ Facts.capMonCtl = 3 ∧ Facts.capEvents = 1 := by
   decide
 
+/-- regenerated fact F3c: the model has no "close the callback queue" step - a send by a client (register, unregister)
+can therefore never hit a closed channel in it.  The code matches: the queue has several senders and is closed nowhere;
+the monitor announces its exit by closing `monDone`, once. -/
+theorem C08_callback_queue_is_never_closed : Facts.callbackQueueCloses = 0 ∧ Facts.monDoneCloses = 1 := ⟨rfl, rfl⟩
+
 end Dials.C08
